@@ -263,10 +263,17 @@ func runSolvers(workdir, name, script string, timeoutS int, needAgree bool) Solv
 		}
 	}
 	if res.Verdict == "unknown" {
+		nerr := 0
 		for _, v := range res.All {
 			if v == "timeout" {
 				res.Verdict = "timeout"
 			}
+			if v == "error" {
+				nerr++
+			}
+		}
+		if nerr == len(res.All) {
+			res.Verdict = "error"
 		}
 	}
 	return res
